@@ -200,9 +200,11 @@ class Lane(LaneBase):
         for k, (s, d, t) in enumerate(tedges):
             if validate and k == len(tedges) - 1 and len(tedges) >= 2:
                 gen.stress(g, ('c10-pre', tuple(nodes), tuple(tedges)))
-            g.add_edge(s, d, edge_type=EdgeType(t), validate=validate)
+            g.add_edge(s, d, edge_type=EdgeType(t) if (k + len(nodes)) % 3 else t, validate=validate)
         if validate:
             gen.stress(g, ('c10', tuple(nodes), tuple(tedges)))
+            g = gen.reroute(g, ('c10', tuple(nodes), tuple(tedges)))[0]
+            gen.query_noise(g, ('c10', tuple(nodes), tuple(tedges)))
         return g
 
     @staticmethod
